@@ -449,6 +449,7 @@ fn handle_request(
 ) -> Result<dhcppkt::Dhcp, DhcpError> {
     if let Some(si) = req.pkt.options.get_serverid()
         && !serverids.contains(&si)
+        && si != req.serverip
     {
         return Err(DhcpError::OtherServer(si));
     }
